@@ -274,10 +274,9 @@ Proof.
   intros E. unfold try_from_builder in E. apply bind_ok in E. destruct E as (b0 & _ & E).
   destruct (negb (popcount (N.land (m_king b0) (m_white b0)) =? 1)); [discriminate|].
   destruct (negb (popcount (N.land (m_king b0) (m_black b0)) =? 1)); [discriminate|].
-  apply bind_ok in E. destruct E as (b6 & E6 & E). apply bind_ok in E. destruct E as (b7 & E7 & E).
-  apply bind_ok in E. destruct E as (h & _ & E). apply bind_ok in E. destruct E as (v & _ & E).
-  destruct v; [discriminate|]. injection E as <-. apply DerivedInv_with_hash.
-  eapply update_terminal_derived; [|exact E7]. eapply update_pins_derived; eauto.
+  apply bind_ok in E. destruct E as (b6 & E6 & E). apply bind_ok in E. destruct E as (h & _ & E).
+  apply bind_ok in E. destruct E as (v & _ & E). destruct v; [discriminate|].
+  eapply update_terminal_derived; [|exact E]. apply DerivedInv_with_hash. eapply update_pins_derived; eauto.
 Qed.
 Lemma play_derived ms : forall b b', DerivedInv b -> play K b ms = Ok b' -> DerivedInv b'.
 Proof.
